@@ -44,6 +44,7 @@ type eCase struct {
 	Batch   int            `json:"batch,omitempty"`   // > 1: documents are handed to AddDocument in groups of up to Batch
 	Pre     []eDoc         `json:"pre,omitempty"`     // an earlier generation of the same builder: these documents are added, the index is built and dropped, the builder is Reset
 	Rebuild int            `json:"rebuild,omitempty"` // > 0: BuildIndex is also called after the first Rebuild documents (no Reset); the final build is the one queried
+	Warm    int            `json:"warm,omitempty"`    // > 0: the builder has a cache provider (threshold = Warm values) that an EARLIER builder filled with the same documents: the queried index is built from the cache
 }
 
 func fieldName(f int) be.BEField { return be.BEField(fmt.Sprintf("f%d", f)) }
@@ -410,6 +411,17 @@ func execE2E(raw json.RawMessage) (res execResult, err error) {
 	defer restore()
 	obs := &e2eObs{}
 	b := newBuilder(&c)
+	if c.Warm > 0 {
+		defer func(v int) { be.BetterToCacheMaxItemsCount = v }(be.BetterToCacheMaxItemsCount)
+		be.BetterToCacheMaxItemsCount = c.Warm
+		cache := &lossyCache{r: &Rand{s: 1}, data: map[be.ConjID][]byte{}}
+		cold := newBuilder(&c, be.WithCacheProvider(cache))
+		for i := range c.Docs {
+			safeCall(func() { cold.AddDocument(c.Docs[i].build()) })
+		}
+		safeCall(func() { cold.BuildIndex() })
+		b = newBuilder(&c, be.WithCacheProvider(cache))
+	}
 	var docLits []string
 	addOne := func(bb *be.IndexerBuilder, docs ...*be.Document) string {
 		var aerr error
